@@ -179,6 +179,22 @@ pub fn run(args: &Args, out: &mut Out) {
     };
     let checker_v1 = variant("^x", false);
     let checker_v2 = variant("$^", true);
+    // sections that set only ONE of the two options of unused_variable: the other keeps its documented default
+    // (`ignore_pattern = "^_"`, `allow_unused_self = true`)
+    let partial = |pattern: Option<&str>, aus: Option<bool>| -> Checker<toml::value::Value> {
+        let mut config: std::collections::HashMap<String, toml::value::Value> = std::collections::HashMap::new();
+        let mut t = toml::value::Table::new();
+        if let Some(p) = pattern {
+            t.insert("ignore_pattern".to_owned(), toml::value::Value::String(p.to_owned()));
+        }
+        if let Some(a) = aus {
+            t.insert("allow_unused_self".to_owned(), toml::value::Value::Boolean(a));
+        }
+        config.insert("unused_variable".to_owned(), toml::value::Value::Table(t));
+        Checker::new(CheckerConfig { config, ..CheckerConfig::default() }, std51.clone()).unwrap()
+    };
+    let checker_v3 = partial(None, Some(false));
+    let checker_v4 = partial(Some("^x"), None);
     let std_sx = crate::libgen::lib_sx(&std51);
     out.case("SCOPE.std", &std_sx, &atom("ok"));
     for (origin, src) in programs(args, out, &mut rng, "/verif/corpus/scope") {
@@ -195,13 +211,15 @@ pub fn run(args: &Args, out: &mut Out) {
             continue;
         }
         let result = std::panic::catch_unwind(std::panic::AssertUnwindSafe(|| {
-            let codes = ["undefined_variable", "unused_variable", "shadowing", "must_use"];
+            let codes = ["undefined_variable", "unused_variable", "shadowing", "must_use", "global_usage", "unscoped_variables"];
             (
                 tables_sx(&ast, &d),
                 list(vec![
                     lint_diags_sx(&checker, &ast, &d, &codes),
                     lint_diags_sx(&checker_v1, &ast, &d, &codes),
                     lint_diags_sx(&checker_v2, &ast, &d, &codes),
+                    lint_diags_sx(&checker_v3, &ast, &d, &codes),
+                    lint_diags_sx(&checker_v4, &ast, &d, &codes),
                 ]),
             )
         }));
